@@ -270,3 +270,12 @@ Example five_reuse_example :
     off + cap5 five_example_cfg req <> top5 (p5 (final5 Fixed five_example_cfg five_example_ops)) /\
     cap5 five_example_cfg 97 = cap5 five_example_cfg req.
 Proof. exists [], [(144, 300)], 32, 100. vm_compute. repeat split; discriminate. Qed.
+
+(* ---------- level 4 (ThreadLocalPool): arena offsets and shared-pool offsets alias - finding five_tl_offset_alias ---------- *)
+Lemma five_tl_offset_alias_refuted_proof :
+  exists c arena ops, new_ok5 Fixed c = true /\
+    live5t (final5t c arena ops) = [(0, 8); (0, 1024)] /\ ~ disjoint 0 8 0 1024.
+Proof.
+  exists (mkFC KMutex 8 1024 1024), 512, [A5 8; A5 1024]. split; [vm_compute; reflexivity|]. split; [vm_compute; reflexivity|].
+  unfold disjoint. lia.
+Qed.
